@@ -63,3 +63,60 @@ func vpH_C17_DeterministicBatches() {
 	vpAssert(w1.Meta.LastSeed() == w2.Meta.LastSeed(), "last_seed_depends_only_on_the_total")
 	vpAssert(w1.Meta.Seed() == seed && w2.Meta.Seed() == seed, "seed_unchanged")
 }
+
+// scan-ahead: a finder reporting arbitrary activity, or failing
+type vpFinder struct {
+	active []bool
+	fail   bool
+}
+
+func (f vpFinder) AddressesActivity(addrs []cipher.Addresser) ([]bool, error) {
+	if f.fail {
+		return nil, wallet.ErrWalletNotExist
+	}
+	return f.active[:len(addrs)], nil
+}
+
+//vp:prop C17
+//vp:bounds deterministic wallet with a free 4-byte seed holding 0..2 addresses; one scan-ahead of 1..2 addresses with every activity pattern or a failing finder; then 0..1 further addresses; compared with single-batch generation of the same total
+//vp:assume the key sequence is an uninterpreted step function of the seed, public-key derivation an uninterpreted function of the secret key, SHA256/RIPEMD160 uninterpreted; hexadecimal text the identity embedding
+//vp:rule github.com/skycoin/skycoin/src/cipher.DeterministicKeyPairIterator model:vpModelKeyPairIterator
+//vp:rule github.com/skycoin/skycoin/src/cipher.MustPubKeyFromSecKey model:vpModelPubFromSec
+//vp:rule encoding/hex.EncodeToString model:vpModelHexEncode
+//vp:rule encoding/hex.DecodeString model:vpModelHexDecode
+//vp:noreplay key derivation is uninterpreted
+func vpH_C17_DeterministicScan() {
+	seed := vpStr("seed", 4)
+	n := vpLen("held", 0, 2)
+	scanN := vpLen("scanAhead", 1, 2)
+	w := vpWallet(seed)
+	_, err := w.GenerateAddresses(wallet.OptionGenerateN(uint64(n)))
+	vpAssert(err == nil, "first_batch_generated")
+	f := vpFinder{fail: vpBool("finderFails"), active: []bool{vpBool("active0"), vpBool("active1")}}
+	keep := 0
+	for i := 0; i < scanN; i++ {
+		if f.active[i] {
+			keep = i + 1
+		}
+	}
+	got, err := w.ScanAddresses(uint64(scanN), f)
+	if f.fail {
+		vpAssert(err != nil, "failing_scan_reports_the_failure")
+		keep = 0
+	} else {
+		vpAssert(err == nil && len(got) == keep, "scan_keeps_addresses_up_to_the_last_active_one")
+	}
+	m := vpLen("afterScan", 0, 1)
+	_, err = w.GenerateAddresses(wallet.OptionGenerateN(uint64(m)))
+	vpAssert(err == nil, "later_batch_generated")
+	total := n + keep + m
+	ref := vpWallet(seed)
+	_, err = ref.GenerateAddresses(wallet.OptionGenerateN(uint64(total)))
+	vpAssert(err == nil && len(ref.entries) == total && len(w.entries) == total, "entry_count_is_total_generated")
+	for i := 0; i < total; i++ {
+		vpAssert(w.entries[i].Secret == ref.entries[i].Secret && w.entries[i].Address == ref.entries[i].Address, "addresses_depend_only_on_the_seed_and_the_count")
+	}
+	if total > 0 {
+		vpAssert(w.Meta.LastSeed() == ref.Meta.LastSeed(), "last_seed_depends_only_on_the_total")
+	}
+}
